@@ -199,5 +199,66 @@ def build_T15b(tree):
     return t1 + '\n\n' + t2, hashlib.sha256(ast.unparse(fn).encode()).hexdigest()
 
 
+# ---------------------------------------------------------------- T15c: the three tests of find_content_items
+def build_T15c(tree):
+    """sr/utils.py::find_content_items: the nested predicates `has_name`, `has_value_type`, `has_relationship_type`
+    and the conjunction applied to every item.
+      Gen.findHasName (given equal : Bool)                  `name is None` / `item.name == name`
+      Gen.findHasValueType (given equal : Bool)
+      Gen.findHasRelationshipType (given item_has equal : Bool)
+    plus shape checks: the item is appended iff all three hold; children are searched iff the item has a ContentSequence and
+    `recursive`; matches are appended before the children's matches (document order)."""
+    outer = find_func(tree, 'find_content_items')
+    parts, shas = [], []
+
+    def pred(qual, lean_name, arg, params, extra=None):
+        fn = find_func(tree, f'find_content_items.{qual}')
+        body = strip_doc(fn.body)
+
+        class R(ast.NodeTransformer):
+            def visit_Compare(self, node):
+                t = ast.unparse(node)
+                if t == f'{arg} is None':
+                    return ast.UnaryOp(op=ast.Not(), operand=ast.Name(id='given', ctx=ast.Load()))
+                if t in (f'item.{arg} == {arg}', 'item.name == name'):
+                    return ast.Name(id='equal', ctx=ast.Load())
+                if extra and t == extra[0]:
+                    return ast.Name(id=extra[1], ctx=ast.Load())
+                return node
+
+            def visit_Assign(self, node):
+                # `value_type = ValueTypeValues(value_type)`: normalisation of the query argument
+                if isinstance(node.value, ast.Call) and ast.unparse(node.targets[0]) == arg and ast.unparse(node.value.args[0]) == arg:
+                    return None
+                return node
+        stmts = [x for x in (R().visit(ast.parse(ast.unparse(st)).body[0]) for st in body) if x is not None]
+        for x in stmts:
+            ast.fix_missing_locations(x)
+        parts.append(translate_block(stmts, lean_name, params, {}, doc=f'`find_content_items.{qual}`'))
+        shas.append(ast.unparse(fn))
+    pred('has_name', 'findHasName', 'name', [('given', 'bool'), ('equal', 'bool')])
+    pred('has_value_type', 'findHasValueType', 'value_type', [('given', 'bool'), ('equal', 'bool')])
+    pred('has_relationship_type', 'findHasRelationshipType', 'relationship_type',
+         [('given', 'bool'), ('item_has_none', 'bool'), ('equal', 'bool')],
+         extra=("getattr(item, 'relationship_type', None) is None", 'item_has_none'))
+    st = find_func(tree, 'find_content_items.search_tree')
+    src = ast.unparse(st)
+    norm = ' '.join(src.split())
+    for needle in ('for content_item in node.ContentSequence:',
+                   'if has_name(item, name) and has_value_type(item, value_type) and has_relationship_type(item, relationship_type): '
+                   'matched_content_items.append(content_item)',
+                   "if hasattr(content_item, 'ContentSequence') and recursive: matched_content_items += search_tree(",
+                   'return matched_content_items'):
+        if needle not in norm:
+            raise Unsupported(f'find_content_items.search_tree no longer contains `{needle}`')
+    if norm.index('matched_content_items.append(content_item)') > norm.index('matched_content_items += search_tree('):
+        raise Unsupported('search_tree: children are collected before the item itself')
+    if "if not hasattr(dataset, 'ContentSequence'): raise AttributeError(" not in ' '.join(ast.unparse(outer).split()):
+        raise Unsupported('find_content_items: guard on the ContentSequence attribute changed')
+    shas.append(src)
+    return '\n\n'.join(parts), hashlib.sha256(''.join(shas).encode()).hexdigest()
+
+
 TARGETS = {'T15a': {'file': 'sr/sop.py', 'build': build_T15a},
+           'T15c': {'file': 'sr/utils.py', 'build': build_T15c},
            'T15b': {'file': 'sr/utils.py', 'build': build_T15b}}
